@@ -85,6 +85,7 @@ type chainCase struct {
 	SANKind    int  // name kind of the intermediate-SAN fault: 0 DNS, 1 IP, 2 email, 3 URI
 	KUFlavor   int  // how a zero-length KeyUsages is handed over: 0 nil, 1 empty literal, 2 buf[:0] of a non-empty buffer
 	NilInter   bool // an empty intermediates pool is handed over as nil
+	RootTwin   bool `json:",omitempty"` // the intermediates also hold a certificate with the ROOT's name and key, issued by a CA nobody trusts (a dead end at the last position)
 }
 
 // truth is what the harness knows about a certificate it had made.
@@ -181,6 +182,8 @@ type pki struct {
 	ints    []*truth // ints[0] is signed by root
 	cross   *truth   // ints[0]'s name and key, signed by root2
 	noise   *truth
+	twin    *truth // root's name and key, issued by twinCA (never in any pool)
+	twinCA  *truth
 	leaf    *truth
 	all     []*truth
 	sha1KT  bool
@@ -572,6 +575,23 @@ func buildPKI(c chainCase) (*pki, error) {
 			return nil, err
 		}
 	}
+	if c.RootTwin && c.Fault != fNoRoot && c.Fault != fUnrelatedRoot {
+		// A second candidate for the LAST position of every path: the root's subject and
+		// key in a certificate whose own issuer is in no pool. It opens no valid path
+		// (seeded change C15-9-1: the chain copy helper stopped copying, and with two
+		// intermediates this candidate overwrote the root in a chain already returned).
+		p.twinCA = newCA("C15 twin issuer", c.RootKT, 7, -3650*day, 3650*day)
+		if isRSA(p.twinCA.kt) {
+			p.twinCA.key = newKey(p.twinCA.kt, 0, true)
+		}
+		if err := p.issue(p.twinCA, 7, nil, nil, nil, alg(p.twinCA)); err != nil {
+			return nil, err
+		}
+		p.twin = &truth{name: p.root.name, kt: p.root.kt, key: p.root.key, notBefore: refInstant.Add(-700 * day), notAfter: refInstant.Add(700 * day), ca: true, ku: caKU, pathLen: -1, eku: caEKU}
+		if err := p.issue(p.twin, 70, p.twinCA, nil, nil, alg(p.twinCA)); err != nil {
+			return nil, err
+		}
+	}
 	if c.Benign&bNoise != 0 {
 		// a CA with the name of the leaf's issuer but another key, properly issued by the root
 		li := signerOf(0)
@@ -923,6 +943,10 @@ func checkChain(c chainCase, r *h.Rec) error {
 	if p.noise != nil {
 		inter = append(inter, p.noise)
 	}
+	if p.twin != nil {
+		inter = append(inter, p.twin)
+		r.Label("root-twin-in-intermediates")
+	}
 	// deterministic shuffle of the intermediates
 	for i := len(inter) - 1; i > 0; i-- {
 		j := int(gen.Mix(c.Seed, uint64(i), 0x5f) % uint64(i+1))
@@ -1115,6 +1139,7 @@ func genChainCase(rt *rapid.T, rootPool, otherPool []int, faults []int) chainCas
 		SANKind:    rapid.IntRange(0, 3).Draw(rt, "san-kind"),
 		KUFlavor:   rapid.IntRange(0, 2).Draw(rt, "ku-flavor"),
 		NilInter:   rapid.Bool().Draw(rt, "nil-inter"),
+		RootTwin:   rapid.IntRange(0, 3).Draw(rt, "root-twin") == 0,
 	}
 	n := rapid.IntRange(0, 3).Draw(rt, "intermediates")
 	for i := 0; i < n; i++ {
